@@ -17,12 +17,14 @@ def build(repo, findings):
     u.add(src.item(r'^pub enum JobState ', 'JobState').r1(keep_derive=()))
     u.prelude('jobs/job_wait_spec.rs')
     u.add(src.item(r'^pub enum JobTaskWaitResult ', 'JobTaskWaitResult').r1(keep_derive=()))
-    u.add(src.item(r'^pub struct Job ', 'Job').r1(keep_derive=()).r11().pub_fields())
+    jb = src.item(r'^pub struct Job ', 'Job').r1(keep_derive=()).r11().pub_fields()
+    jb.resub(r'\n\}$', '\n    pub vx_awaits: Ghost<nat>,      // ghost (erased): how many task awaits this job has seen\n}', 'R7', 'ghost counter field added to the extracted struct (no constructor is extracted)', count=1)
+    u.add(jb)
     im = src.item(r'^impl Job ', 'impl Job').r1().r3()
     im.keep_only_fns(['poll_done', 'wait'], 'constructors, accessors, signal delivery — NOT verified')
     im.resub(r'^[ \t]*tracing::debug!\((?:[^;]|\n)*?\);\n', '', 'R2', 'tracing::debug! dropped', count=None)
     im.resub(r'while let Some\(task\) = self\.tasks\.back_mut\(\) \{', 'while self.tasks.len() > 0 {', 'R14', '`while let Some(task) = v.back_mut()` -> `while v.len() > 0` (back_mut is Some iff the deque is not empty)', count=None)
-    im.resub(r'\btask\.wait\(\)', 'vx_wait_back(&mut self.tasks)', 'R14', 'await of the task borrowed by back_mut -> stub on the deque', count=None)
+    im.resub(r'\btask\.wait\(\)', 'vx_wait_back(&mut self.tasks, &mut self.vx_awaits)', 'R14', 'await of the task borrowed by back_mut -> stub on the deque', count=None)
     im.resub(r'[ \t]*let task = &mut self\.tasks\[0\];\n', '', 'R14', '`&mut v[0]` folded into the poll stub', count=None)
     im.resub(r'\btask\.poll\(\)', 'vx_poll_front(&mut self.tasks)', 'R14', 'poll of the task borrowed by `&mut v[0]` -> stub on the deque', count=None)
     im.resub(r'self\.tasks\.remove\(0\);', 'self.tasks.pop_front();', 'R14', 'VecDeque::remove(0) -> pop_front (same element, same effect; std)', count=None)
@@ -39,9 +41,11 @@ def build(repo, findings):
     im.sig('wait', ret='r', ensures=[
         C('C17 waiting-touches-neither-id-nor-annotation', FRAME),
         C('C17 wait-returns-ok-only-with-every-task-awaited-or-the-job-stopped', 'r is Ok ==> (final(self).tasks@.len() == 0 && final(self).state is Done) || final(self).state is Stopped'),
+        C('C17 a-job-with-tasks-left-is-reported-only-after-awaiting-one-of-them-in-this-call', '(r is Ok && old(self).tasks@.len() > 0) ==> final(self).vx_awaits@ > old(self).vx_awaits@'),
     ])
     im.loop(0, fn_name='wait', invariant=[
         C('aux', 'self.id == old(self).id && self.annotation == old(self).annotation'),
+        C('C17 awaits-so-far', 'self.vx_awaits@ >= old(self).vx_awaits@ && (self.tasks@.len() < old(self).tasks@.len() ==> self.vx_awaits@ > old(self).vx_awaits@) && self.tasks@.len() <= old(self).tasks@.len()'),
     ], decreases='self.tasks@.len()')
     u.add(im)
     u.raw(FOOTER)
